@@ -1,11 +1,421 @@
 /-
 C14 — performed notes sound until release or later, exactly as the pedal dictates.
+
+Property theorems over Model/Pedal.lean (the literal mirror of `adjust_offsets_w_sustain`, the threshold
+setter, `note_array`, `from_note_array`, `sanitize_track_numbers`).  Vocabulary (defined in Model/Pedal.lean):
+`pedalStream cs thr` = pedal events in time order, simultaneous ones in stream order, thresholded `value > thr`;
+`downBefore r evs` = state established by the events strictly before `r`; `Moment ns cs thr i n t` = `t ≥ release`
+is a pedal event with value ≤ thr or the onset of another note of the same pitch; `closing` = the table's
+closing sentinel; `soundOffAt ns cs thr i` = `sound_off` of note `i` after `adjust_offsets_w_sustain`.
 -/
-import PartituraModel.Model.Pedal
+import PartituraModel.Proofs.C14Aux
+import PartituraModel.Proofs.Round
 
 namespace C14
-open Model Model.Pedal
+open Model Model.Pedal C14P
 
-theorem placeholder_partial : soundOffs [] [] 64 = some [] := rfl
+/-! ### the vocabulary is what it says -/
+
+/-- `validNote` = 0 ≤ onset ≤ release and MIDI ranges of pitch and velocity -/
+theorem valid_note_iff (n : Note) :
+    validNote n = true ↔ 0 ≤ n.pitch ∧ n.pitch ≤ 127 ∧ 0 ≤ n.on ∧ n.on ≤ n.off ∧ 0 ≤ n.vel ∧ n.vel ≤ 127 :=
+  validNote_iff n
+
+/-- the pedal stream is exactly the controls number 64, thresholded `value > thr` … -/
+theorem pedal_stream_perm (cs : List Control) (thr : Int) :
+    (pedalStream cs thr).Perm ((cs.filter (fun c => c.number = 64)).map (fun c => (c.time, decide (thr < c.value)))) :=
+  perm_sortBy _ _
+
+/-- … in time order … -/
+theorem pedal_stream_sorted (cs : List Control) (thr : Int) :
+    (pedalStream cs thr).Pairwise (fun a b => a.1 ≤ b.1) :=
+  sorted_sortBy _ _
+
+/-- … simultaneous events in the order of the control stream -/
+theorem pedal_stream_stable (cs : List Control) (thr : Int) (t : Rat) :
+    (pedalStream cs thr).filter (fun e => decide (e.1 = t))
+      = ((cs.filter (fun c => c.number = 64)).map (fun c => (c.time, decide (thr < c.value)))).filter
+          (fun e => decide (e.1 = t)) :=
+  stable_sortBy _ t _
+
+example : pedalStream [⟨64, 1, 100, none⟩, ⟨7, 0, 3, none⟩, ⟨64, 1, 0, none⟩, ⟨64, 0, 90, some 2⟩] 64
+    = [(0, true), (1, true), (1, false)] := by decide +kernel
+
+/-- the pedal change table the code searches with `np.searchsorted` is in ascending time order, and so are the
+    same-pitch onsets searched by the re-strike clipping (the precondition under which `searchsorted` is
+    modelled as "number of elements < x") -/
+theorem searched_arrays_sorted (cs : List Control) (thr : Int) (firstOff lastOff : Rat) (T : List Ev)
+    (hT : pedalTable (pedalStream cs thr) firstOff lastOff = some T) (ns : List Note) (p : Int) :
+    T.Pairwise (fun a b => a.1 ≤ b.1)
+    ∧ (sortBy (fun m : Note × Nat => m.1.on) (samePitch ns p)).Pairwise (fun a b => a.1.on ≤ b.1.on) :=
+  ⟨pedalTable_sorted _ _ _ T hT (sorted_sortBy _ _), sorted_sortBy _ _⟩
+
+example : pedalTable (pedalStream [⟨64, 1, 100, none⟩, ⟨64, 3, 90, none⟩, ⟨64, 4, 0, none⟩, ⟨64, 0, 0, none⟩] 64) 2 5
+    = some [(-1, false), (0, false), (1, true), (4, false), (6, false)] := by decide +kernel
+
+/-! ### never fails; never before the release -/
+
+/-- building a performed part from well-formed notes and any control stream never fails; its `sound_off`
+    column is `adjust_offsets_w_sustain` of (notes, controls, threshold); every later assignment succeeds -/
+theorem total (ns : List Note) (cs : List Control) (thr : Int) (hwf : ∀ n ∈ ns, validNote n = true) :
+    ∃ p, buildPart ns cs thr = some p ∧ p.notes = ns ∧ p.controls = cs ∧ p.thr = thr
+      ∧ soundOffs ns cs thr = some p.sound ∧ p.sound.length = ns.length
+      ∧ ∀ thr', ∃ p', setThreshold p thr' = some p' := by
+  have hall : ns.all validNote = true := List.all_eq_true.mpr hwf
+  unfold buildPart
+  rw [if_pos hall, setThreshold_eq]
+  refine ⟨_, rfl, rfl, rfl, rfl, ?_, ?_, ?_⟩
+  · exact soundOffs_eq ns cs thr
+  · simp
+  · intro thr'
+    rw [setThreshold_eq]
+    exact ⟨_, rfl⟩
+
+/-- `PerformedNote` validation: a note outside 0 ≤ onset ≤ release / MIDI ranges is rejected -/
+theorem rejects_invalid (ns : List Note) (cs : List Control) (thr : Int) (n : Note) (hn : n ∈ ns)
+    (hbad : validNote n = false) : buildPart ns cs thr = none := by
+  unfold buildPart
+  have : ¬ (ns.all validNote = true) := by
+    intro h
+    have := List.all_eq_true.mp h n hn
+    rw [hbad] at this
+    cases this
+  rw [if_neg this]
+
+example : buildPart [⟨60, 0, 2, 64, 0, 1, none⟩, ⟨60, 1, 3, 64, 0, 2, none⟩] [⟨64, 1/2, 100, none⟩, ⟨64, 5, 0, none⟩] 64
+    = some ⟨[⟨60, 0, 2, 64, 0, 1, none⟩, ⟨60, 1, 3, 64, 0, 2, none⟩], [5, 5], [⟨64, 1/2, 100, none⟩, ⟨64, 5, 0, none⟩], 64⟩ := by
+  decide +kernel
+
+example : buildPart [⟨60, 2, 1, 64, 0, 1, none⟩] [] 64 = none := by decide +kernel
+
+/-- every note has a sounding end, and it is never before the release (any notes, any controls, any threshold) -/
+theorem ge_release (ns : List Note) (cs : List Control) (thr : Int) (i : Nat) (n : Note) (hn : ns[i]? = some n) :
+    ∃ x, soundOffAt ns cs thr i = some x ∧ n.off ≤ x := by
+  rw [soundOffAt_eq, hn]
+  exact ⟨_, rfl, spec_ge_off ns cs thr i n (List.mem_of_getElem? hn)⟩
+
+example : soundOffAt [⟨60, 0, 1, 64, 0, 1, none⟩, ⟨61, 1/2, 1/2, 0, 3, 9, some 7⟩] [⟨64, 1/4, 100, none⟩, ⟨64, 2, 3, none⟩] 64 1
+    = some 2 := by decide +kernel
+
+/-! ### equal to the release -/
+
+/-- no pedal events: every note ends at its release -/
+theorem eq_release_no_pedal (ns : List Note) (cs : List Control) (thr : Int) (i : Nat) (n : Note)
+    (hn : ns[i]? = some n) (hno : ∀ c ∈ cs, c.number ≠ 64) : soundOffAt ns cs thr i = some n.off := by
+  rw [soundOffAt_eq, hn]
+  simp [soundOffSpec, pedalStream_nil_of_no_pedal cs thr hno, downBefore]
+
+/-- no pedal value above the threshold (in particular threshold 127 with MIDI values 0..127) -/
+theorem eq_release_thr_max (ns : List Note) (cs : List Control) (thr : Int) (i : Nat) (n : Note)
+    (hn : ns[i]? = some n) (hmax : ∀ c ∈ cs, c.number = 64 → c.value ≤ thr) :
+    soundOffAt ns cs thr i = some n.off := by
+  rw [soundOffAt_eq, hn]
+  have : downBefore n.off (pedalStream cs thr) = false := by
+    apply downBefore_false_of_all_up
+    intro e he
+    obtain ⟨c, hc, h64, rfl⟩ := (mem_pedalStream cs thr e).mp he
+    have := hmax c hc h64
+    simp only [decide_eq_false_iff_not]
+    omega
+  simp [soundOffSpec, this]
+
+/-- the pedal is up at the release -/
+theorem eq_release_pedal_up (ns : List Note) (cs : List Control) (thr : Int) (i : Nat) (n : Note)
+    (hn : ns[i]? = some n) (hup : downBefore n.off (pedalStream cs thr) = false) :
+    soundOffAt ns cs thr i = some n.off := by
+  rw [soundOffAt_eq, hn]
+  simp [soundOffSpec, hup]
+
+example : soundOffAt [⟨60, 0, 1, 64, 0, 1, none⟩] [⟨7, 1/2, 127, none⟩, ⟨66, 1/2, 127, none⟩] 0 0 = some 1 := by decide +kernel
+-- a pedal event exactly at the release acts after it; the re-strike at 3 is irrelevant with the pedal up
+example : soundOffAt [⟨60, 0, 1, 64, 0, 1, none⟩, ⟨60, 3, 4, 64, 0, 1, none⟩] [⟨64, 1, 127, none⟩, ⟨64, 9, 0, none⟩] 64 0
+    = some 1 := by decide +kernel
+example : soundOffAt [⟨60, 0, 1, 64, 0, 1, none⟩] [⟨64, 1/2, 127, none⟩, ⟨64, 9, 0, none⟩] 127 0 = some 1 := by
+  decide +kernel
+
+/-! ### pedal down at the release -/
+
+/-- with the pedal down at the release the note ends at the first moment at or after the release at which the
+    pedal value is at or below the threshold or the same pitch is struck again — the least such moment -/
+theorem pedal_down (ns : List Note) (cs : List Control) (thr : Int) (i : Nat) (n : Note)
+    (hwf : ∀ m ∈ ns, m.on ≤ m.off) (hn : ns[i]? = some n)
+    (hdown : downBefore n.off (pedalStream cs thr) = true) (hex : ∃ t, Moment ns cs thr i n t) :
+    ∃ x, soundOffAt ns cs thr i = some x ∧ Moment ns cs thr i n x ∧ ∀ t, Moment ns cs thr i n t → x ≤ t := by
+  rw [soundOffAt_eq, hn]
+  refine ⟨_, rfl, ?_, ?_⟩
+  · obtain ⟨c, hc⟩ := closing_some_of_down ns _ n (List.mem_of_getElem? hn) _ hdown
+    obtain ⟨t, ht⟩ := hex
+    have htm := (mem_moments ns cs thr i n t).mpr ht
+    have hlt := moments_lt_closing ns cs thr i n c hwf hc
+    apply (mem_moments ns cs thr i n _).mp
+    simp only [soundOffSpec, hdown, if_true, hc, Option.getD_some, minOf]
+    rcases foldl_min_mem c (upTimes n.off (pedalStream cs thr) ++ restrikes ns i n) with h | h
+    · exfalso
+      have h1 := foldl_min_le_mem c _ t htm
+      rw [h] at h1
+      exact absurd (hlt t htm) (not_lt.mpr h1)
+    · exact h
+  · intro t ht
+    have htm := (mem_moments ns cs thr i n t).mpr ht
+    simp only [soundOffSpec, hdown, if_true, minOf]
+    exact foldl_min_le_mem _ _ t htm
+
+/-- pedal down at the release, never lifted afterwards and the pitch never struck again: the property names no
+    moment; the code (and the model) answer the closing sentinel, one second after the last pedal event and
+    the last release of the part -/
+theorem pedal_down_never_released (ns : List Note) (cs : List Control) (thr : Int) (i : Nat) (n : Note)
+    (hn : ns[i]? = some n) (hdown : downBefore n.off (pedalStream cs thr) = true)
+    (hno : ¬ ∃ t, Moment ns cs thr i n t) :
+    ∃ c, closing ns (pedalStream cs thr) = some c ∧ soundOffAt ns cs thr i = some c := by
+  obtain ⟨c, hc⟩ := closing_some_of_down ns _ n (List.mem_of_getElem? hn) _ hdown
+  refine ⟨c, hc, ?_⟩
+  rw [soundOffAt_eq, hn, Option.map_some]
+  have : upTimes n.off (pedalStream cs thr) ++ restrikes ns i n = [] := by
+    apply List.eq_nil_iff_forall_not_mem.mpr
+    intro t ht
+    exact hno ⟨t, (mem_moments ns cs thr i n t).mp ht⟩
+  simp only [soundOffSpec, hdown, if_true, hc, Option.getD_some]
+  rw [this]
+  rfl
+
+-- pedal down at 1/2, lifted at 5; the same pitch is struck again at 3 (on another channel): cut at 3;
+-- the later note sounds until the pedal is lifted; a note of another pitch is not cut
+example : soundOffAt [⟨60, 0, 2, 64, 0, 1, none⟩, ⟨60, 3, 4, 64, 0, 2, none⟩, ⟨62, 0, 2, 64, 0, 1, none⟩]
+    [⟨64, 1/2, 100, none⟩, ⟨64, 5, 0, none⟩] 64 0 = some 3 := by decide +kernel
+example : (List.range 3).map (soundOffAt [⟨60, 0, 2, 64, 0, 1, none⟩, ⟨60, 3, 4, 64, 0, 2, none⟩, ⟨62, 0, 2, 64, 0, 1, none⟩]
+    [⟨64, 1/2, 100, none⟩, ⟨64, 5, 0, none⟩] 64) = [some 3, some 5, some 5] := by decide +kernel
+example : Moment [⟨60, 0, 2, 64, 0, 1, none⟩, ⟨60, 3, 4, 64, 0, 2, none⟩] [⟨64, 1/2, 100, none⟩, ⟨64, 5, 0, none⟩] 64 0
+    ⟨60, 0, 2, 64, 0, 1, none⟩ 3 :=
+  ⟨by decide +kernel, Or.inr ⟨1, ⟨60, 3, 4, 64, 0, 2, none⟩, rfl, by decide, rfl, rfl⟩⟩
+-- never released: sentinel = max(last pedal time, last release) + 1
+example : soundOffAt [⟨60, 0, 2, 64, 0, 1, none⟩] [⟨64, 1/2, 100, none⟩] 64 0 = some 3 := by decide +kernel
+
+/-- the re-strike cut does not depend on how simultaneous onsets of one pitch are ordered by the sort -/
+theorem restrike_order_irrelevant (ns : List Note) (i : Nat) (n : Note) (x : Rat) (S : List (Note × Nat))
+    (hp : S.Perm (samePitch ns n.pitch)) (hS : S.Pairwise (fun a b => a.1.on ≤ b.1.on)) :
+    restrikeClipIn S i n x = restrikeClip ns i n x :=
+  restrikeClipIn_any_order ns i n x S hp hS
+
+-- two simultaneous onsets of one pitch in either order, seen from the zero-length note 0 released at 1
+example : restrikeClipIn [(⟨60, 1, 1, 64, 0, 1, none⟩, 0), (⟨60, 1, 2, 64, 0, 1, none⟩, 1)] 0 ⟨60, 1, 1, 64, 0, 1, none⟩ 9 = 1
+    ∧ restrikeClipIn [(⟨60, 1, 2, 64, 0, 1, none⟩, 1), (⟨60, 1, 1, 64, 0, 1, none⟩, 0)] 0 ⟨60, 1, 1, 64, 0, 1, none⟩ 9 = 1 := by
+  decide +kernel
+
+/-! ### the threshold -/
+
+/-- raising the threshold never lengthens any note -/
+theorem thr_antitone (ns : List Note) (cs : List Control) (thr thr' : Int) (h : thr ≤ thr') (i : Nat) (n : Note)
+    (hn : ns[i]? = some n) :
+    ∃ x x', soundOffAt ns cs thr i = some x ∧ soundOffAt ns cs thr' i = some x' ∧ x' ≤ x := by
+  rw [soundOffAt_eq, soundOffAt_eq, hn]
+  exact ⟨_, _, rfl, rfl, spec_antitone ns cs thr thr' h i n (List.mem_of_getElem? hn)⟩
+
+example : soundOffAt [⟨60, 0, 1, 64, 0, 1, none⟩] [⟨64, 1/2, 65, none⟩, ⟨64, 2, 0, none⟩] 64 0 = some 2
+    ∧ soundOffAt [⟨60, 0, 1, 64, 0, 1, none⟩] [⟨64, 1/2, 65, none⟩, ⟨64, 2, 0, none⟩] 65 0 = some 1 := by decide +kernel
+
+/-- assigning the threshold recomputes every note from (notes, controls, threshold): the result does not
+    depend on the `sound_off` values (or the threshold) the part held before -/
+theorem recompute (p q : Part) (thr : Int) (hn : p.notes = q.notes) (hc : p.controls = q.controls) :
+    (setThreshold p thr).map (·.sound) = (setThreshold q thr).map (·.sound)
+    ∧ (setThreshold p thr).map (·.sound) = soundOffs p.notes p.controls thr := by
+  unfold setThreshold
+  rw [hn, hc]
+  cases soundOffs q.notes q.controls thr <;> simp
+
+/-- after any sequence of assignments the notes sound as in a part freshly built with the last threshold;
+    every intermediate observation is the fresh computation for its threshold -/
+theorem recompute_sequence (ns : List Note) (cs : List Control) (thr : Int) (ts : List Int) (p : Part)
+    (hp : buildPart ns cs thr = some p) :
+    ∃ obs, rethreshold p ts = some obs ∧ obs.length = ts.length ∧
+      ∀ (k : Nat) (t : Int), ts[k]? = some t → obs[k]? = soundOffs ns cs t := by
+  obtain ⟨hnotes, hcontrols⟩ : p.notes = ns ∧ p.controls = cs := by
+    unfold buildPart at hp
+    split at hp
+    · rw [setThreshold_eq] at hp
+      have := Option.some.inj hp
+      subst this
+      exact ⟨rfl, rfl⟩
+    · cases hp
+  refine ⟨_, rethreshold_eq p ts, by simp, ?_⟩
+  intro k t hk
+  rw [List.getElem?_map, hk, hnotes, hcontrols, soundOffs_eq]
+  rfl
+
+example : (buildPart [⟨60, 0, 1, 64, 0, 1, none⟩] [⟨64, 1/2, 65, none⟩, ⟨64, 2, 0, none⟩] 64).bind
+    (fun p => rethreshold p [65, 0, 127, 64]) = some [[1], [2], [1], [2]] := by decide +kernel
+
+/-! ### the note array and its inverse -/
+
+/-- rows of `note_array()`: onset in seconds and in ticks agree under ppq and mpq, the duration in seconds
+    reaches the sounding end, the duration in ticks is the tick image of the release minus the onset tick —
+    which is the tick image of the seconds columns whenever no pedal extends the note -/
+theorem rows_consistent (mpq ppq : Nat) (n : Note) (so : Rat) :
+    (noteRow mpq ppq n so).onsetSec = n.on
+    ∧ (noteRow mpq ppq n so).durSec = so - n.on
+    ∧ (n.onTick = none → (noteRow mpq ppq n so).onsetTick = secToTick (noteRow mpq ppq n so).onsetSec mpq ppq)
+    ∧ (noteRow mpq ppq n so).durTick = secToTick n.off mpq ppq - (noteRow mpq ppq n so).onsetTick
+    ∧ (so = n.off → (noteRow mpq ppq n so).durTick
+        = secToTick ((noteRow mpq ppq n so).onsetSec + (noteRow mpq ppq n so).durSec) mpq ppq
+          - (noteRow mpq ppq n so).onsetTick)
+    ∧ (noteRow mpq ppq n so).pitch = n.pitch ∧ (noteRow mpq ppq n so).vel = n.vel
+    ∧ (noteRow mpq ppq n so).track = n.track ∧ (noteRow mpq ppq n so).chan = n.chan := by
+  refine ⟨rfl, rfl, ?_, rfl, ?_, rfl, rfl, rfl, rfl⟩
+  · intro h; simp [noteRow, h]
+  · intro h
+    subst h
+    simp [noteRow]
+
+/-- one row per note, in order, each built from the note and its current `sound_off` -/
+theorem rows_of_part (mpq ppq : Nat) (p : Part) (hl : p.sound.length = p.notes.length) (i : Nat) :
+    (noteRows mpq ppq p)[i]? =
+      (p.notes[i]?).bind (fun n => (p.sound[i]?).map (fun so => noteRow mpq ppq n so))
+    ∧ (noteRows mpq ppq p).length = p.notes.length := by
+  unfold noteRows
+  constructor
+  · rw [List.getElem?_map]
+    cases h1 : p.notes[i]? with
+    | none =>
+      have : (p.notes.zip p.sound)[i]? = none := by
+        apply List.getElem?_eq_none
+        have := List.getElem?_eq_none_iff.mp h1
+        simp [List.length_zip]; omega
+      simp [this]
+    | some n =>
+      cases h2 : p.sound[i]? with
+      | none =>
+        have := List.getElem?_eq_none_iff.mp h2
+        have := (List.getElem?_eq_some_iff.mp h1).1
+        omega
+      | some so =>
+        have : (p.notes.zip p.sound)[i]? = some (n, so) := List.getElem?_zip_eq_some.mpr ⟨h1, h2⟩
+        simp [this]
+  · simp [List.length_zip, hl]
+
+/-- a performed part rebuilt from its own note array has the same pitches, velocities, onsets (tracks and
+    channels) and the same sounding ends -/
+theorem from_to_array (ns : List Note) (cs : List Control) (thr : Int) (mpq ppq : Nat) (p : Part)
+    (hp : buildPart ns cs thr = some p) :
+    ∃ q, fromRows (noteRows mpq ppq p) = some q
+      ∧ q.notes.map (fun n => (n.pitch, n.vel, n.on, n.track, n.chan))
+          = ns.map (fun n => (n.pitch, n.vel, n.on, n.track, n.chan))
+      ∧ q.sound = p.sound := by
+  -- what the part is
+  have hvalid : ns.all validNote = true := by
+    unfold buildPart at hp
+    split at hp
+    · assumption
+    · cases hp
+  have hp' : p = ⟨ns, ns.zipIdx.map (fun m => soundOffSpec ns cs thr m.2 m.1), cs, thr⟩ := by
+    unfold buildPart at hp
+    rw [if_pos hvalid, setThreshold_eq] at hp
+    exact (Option.some.inj hp).symm
+  subst hp'
+  -- the notes from_note_array builds
+  have hrows : (noteRows mpq ppq ⟨ns, ns.zipIdx.map (fun m => soundOffSpec ns cs thr m.2 m.1), cs, thr⟩).map noteOfRow
+      = ns.zipIdx.map (fun m => ({ m.1 with off := soundOffSpec ns cs thr m.2 m.1, onTick := none } : Note)) := by
+    unfold noteRows
+    simp only
+    have hz := zip_map_zipIdx (fun m : Note × Nat => soundOffSpec ns cs thr m.2 m.1) ns 0
+    rw [hz, List.map_map, List.map_map]
+    apply List.map_congr_left
+    intro m _
+    simp only [Function.comp, noteOfRow, noteRow]
+    congr 1
+    exact add_sub_cancel _ _
+  unfold fromRows buildPart
+  rw [hrows]
+  have hvalid' : (ns.zipIdx.map (fun m => ({ m.1 with off := soundOffSpec ns cs thr m.2 m.1, onTick := none } : Note))).all
+      validNote = true := by
+    apply List.all_eq_true.mpr
+    intro a ha
+    obtain ⟨m, hm, rfl⟩ := List.mem_map.mp ha
+    have hmem : m.1 ∈ ns := List.mem_of_getElem? (List.mem_zipIdx_iff_getElem?.mp hm)
+    have hv := (validNote_iff m.1).mp (List.all_eq_true.mp hvalid m.1 hmem)
+    have hge := spec_ge_off ns cs thr m.2 m.1 hmem
+    apply (validNote_iff _).mpr
+    exact ⟨hv.1, hv.2.1, hv.2.2.1, le_trans hv.2.2.2.1 hge, hv.2.2.2.2.1, hv.2.2.2.2.2⟩
+  rw [if_pos hvalid']
+  unfold setThreshold
+  simp only
+  rw [soundOffs_no_controls]
+  refine ⟨_, rfl, ?_, ?_⟩
+  · simp only [List.map_map]
+    exact map_zipIdx_fst (fun n : Note => (n.pitch, n.vel, n.on, n.track, n.chan)) ns 0
+  · simp [List.map_map, Function.comp]
+
+example : (buildPart [⟨60, 0, 2, 64, 0, 1, none⟩, ⟨60, 3, 4, 70, 1, 2, none⟩] [⟨64, 1/2, 100, none⟩, ⟨64, 5, 0, none⟩] 64).map
+    (noteRows 500000 480) = some [⟨0, 3, 0, 1920, 60, 64, 0, 1⟩, ⟨3, 2, 2880, 960, 60, 70, 1, 2⟩] := by decide +kernel
+
+example : ((buildPart [⟨60, 0, 2, 64, 0, 1, none⟩, ⟨60, 3, 4, 70, 1, 2, none⟩] [⟨64, 1/2, 100, none⟩, ⟨64, 5, 0, none⟩] 64).bind
+    (fun p => fromRows (noteRows 500000 480 p))).map (fun q => (q.notes.map (fun n => (n.pitch, n.vel, n.on, n.off)), q.sound))
+    = some ([(60, 64, 0, 3), (60, 70, 3, 5)], [3, 5]) := by decide +kernel
+
+/-! ### track renumbering -/
+
+/-- `sanitize_track_numbers`, for every iteration order `u` of the set of (part, track) pairs: it never fails,
+    the new number is a function of (part index, old track) alone, that function is injective on the pairs
+    that occur (so no two parts share a track and no track is split), and the numbers are `0 … num_tracks-1` -/
+theorem tracks_unique (parts : List PartTracks) (u : List (Nat × Int)) (hnd : u.Nodup)
+    (hu : ∀ k, k ∈ u ↔ k ∈ trackKeys parts) :
+    ∃ f : Nat × Int → Nat,
+      sanitizeWith u parts = some (parts.zipIdx.map (fun p =>
+        (p.1.notes.map (fun t => f (p.2, t)), p.1.controls.map (fun t => f (p.2, trackOr t)),
+         p.1.programs.map (fun t => f (p.2, trackOr t)))))
+      ∧ (∀ k₁ ∈ trackKeys parts, ∀ k₂ ∈ trackKeys parts, f k₁ = f k₂ → k₁ = k₂)
+      ∧ (∀ k ∈ trackKeys parts, f k < numTracks parts) := by
+  have hget : ∀ k ∈ trackKeys parts, ∃ j, trackMap u k = some j ∧ j < u.length :=
+    fun k hk => indexOf_some_of_mem k u ((hu k).mpr hk)
+  have hlen : u.length = numTracks parts := by
+    unfold numTracks
+    apply List.Perm.length_eq
+    apply (List.perm_ext_iff_of_nodup hnd (nodup_dedup _)).mpr
+    intro k
+    rw [hu k, mem_dedup]
+  refine ⟨fun k => (trackMap u k).getD 0, ?_, ?_, ?_⟩
+  · unfold sanitizeWith
+    apply mapM'_eq_some
+    intro p hp
+    have hpi : parts[p.2]? = some p.1 := List.mem_zipIdx_iff_getElem?.mp hp
+    have hkeys : (∀ t ∈ p.1.notes, (p.2, t) ∈ trackKeys parts)
+        ∧ (∀ t ∈ p.1.controls, (p.2, trackOr t) ∈ trackKeys parts)
+        ∧ (∀ t ∈ p.1.programs, (p.2, trackOr t) ∈ trackKeys parts) := by
+      unfold trackKeys
+      refine ⟨?_, ?_, ?_⟩
+      · intro t ht
+        apply List.mem_append_left; apply List.mem_append_left
+        exact List.mem_flatMap.mpr ⟨p, hp, List.mem_map.mpr ⟨t, ht, rfl⟩⟩
+      · intro t ht
+        apply List.mem_append_left; apply List.mem_append_right
+        exact List.mem_flatMap.mpr ⟨p, hp, List.mem_map.mpr ⟨t, ht, rfl⟩⟩
+      · intro t ht
+        apply List.mem_append_right
+        exact List.mem_flatMap.mpr ⟨p, hp, List.mem_map.mpr ⟨t, ht, rfl⟩⟩
+    unfold sanitizePart
+    rw [mapM'_eq_some (fun t => trackMap u (p.2, t)) (fun t => (trackMap u (p.2, t)).getD 0) p.1.notes
+        (by intro t ht; obtain ⟨j, hj, _⟩ := hget _ (hkeys.1 t ht); simp [hj]),
+      mapM'_eq_some (fun t => trackMap u (p.2, trackOr t)) (fun t => (trackMap u (p.2, trackOr t)).getD 0) p.1.controls
+        (by intro t ht; obtain ⟨j, hj, _⟩ := hget _ (hkeys.2.1 t ht); simp [hj]),
+      mapM'_eq_some (fun t => trackMap u (p.2, trackOr t)) (fun t => (trackMap u (p.2, trackOr t)).getD 0) p.1.programs
+        (by intro t ht; obtain ⟨j, hj, _⟩ := hget _ (hkeys.2.2 t ht); simp [hj])]
+  · intro k₁ h₁ k₂ h₂ hf
+    obtain ⟨j₁, hj₁, _⟩ := hget k₁ h₁
+    obtain ⟨j₂, hj₂, _⟩ := hget k₂ h₂
+    simp only [hj₁, hj₂, Option.getD_some] at hf
+    subst hf
+    exact indexOf_inj k₁ k₂ u j₁ hj₁ hj₂
+  · intro k hk
+    obtain ⟨j, hj, hlt⟩ := hget k hk
+    simp only [hj, Option.getD_some]
+    omega
+
+/-- the order of first occurrence is such an enumeration (it is the one the check compares with) -/
+theorem tracks_unique_canonical (parts : List PartTracks) :
+    (dedup (trackKeys parts)).Nodup ∧ ∀ k, k ∈ dedup (trackKeys parts) ↔ k ∈ trackKeys parts :=
+  ⟨nodup_dedup _, fun k => mem_dedup _ k⟩
+
+-- two parts both using track 0 (and a control without track number in the second one)
+example : sanitize [⟨[0, 1, 0], [some 0], []⟩, ⟨[0, 0], [none], [some 0]⟩]
+    = some [([0, 1, 0], [0], []), ([2, 2], [3], [2])]
+  ∧ numTracks [⟨[0, 1, 0], [some 0], []⟩, ⟨[0, 0], [none], [some 0]⟩] = 4 := by decide +kernel
 
 end C14
